@@ -70,6 +70,14 @@ type params struct {
 	// Cgo: package 0 has one more file that imports "C" (file index -2 in the
 	// arguments); skipped when cgo is not usable on the machine
 	Cgo bool `json:"cgo,omitempty"`
+	// Line: files carry a //line directive before their package clause, as
+	// generated files do: "plain" names a grammar file that does not exist,
+	// "cross" makes the first file of package 0 claim the path of a file of the
+	// last package. Directives change reported positions, not which file is which
+	Line string `json:"line_directives,omitempty"`
+	// Config: this run goes through `gomacro -config` instead (see config.go);
+	// nothing else of the parameters is used then
+	Config *cfgParams `json:"config,omitempty"`
 }
 
 var cgoState int // 0 unknown, 1 usable, 2 not
@@ -122,6 +130,10 @@ var onlyNoPanic = map[string]bool{"no_go_mod": true}
 
 func (c17) Generate(env *kernel.Env, r *kernel.Rand, index int) any {
 	var p params
+	if index%5 == 4 {
+		p.Config = generateConfig(r)
+		return p
+	}
 	segs := r.Range(1, 4)
 	parts := []string{"example.com"}
 	for i := 1; i < segs; i++ {
@@ -260,6 +272,9 @@ func (c17) Generate(env *kernel.Env, r *kernel.Rand, index int) any {
 			p.Args = append(p.Args, fileArg{Pkg: 0, File: -1, Spelling: kernel.Pick(r, []string{"abs", "rel"})})
 		}
 	}
+	if r.Chance(1, 5) {
+		p.Line = kernel.Pick(r, []string{"plain", "cross"})
+	}
 	return p
 }
 
@@ -291,6 +306,10 @@ func (c17) Execute(env *kernel.Env, raw json.RawMessage, ch *kernel.Choices) *ke
 	}
 	quiet()
 	out := &kernel.Outcome{}
+	if p.Config != nil {
+		executeConfig(env, p.Config, out)
+		return out
+	}
 	// the build-tagged file of package 0 (file index -1 in the arguments)
 	{
 		tagged := -1
@@ -370,6 +389,9 @@ func (c17) Execute(env *kernel.Env, raw json.RawMessage, ch *kernel.Choices) *ke
 		}
 		return p.Module + "/" + p.Pkgs[i].Dir
 	}
+	if p.Line != "" {
+		out.Fault("env_line_directives_" + p.Line)
+	}
 	for i, ps := range p.Pkgs {
 		dir := filepath.Join(modRoot, filepath.FromSlash(ps.Dir))
 		must(os.MkdirAll(dir, 0o755))
@@ -377,6 +399,13 @@ func (c17) Execute(env *kernel.Env, raw json.RawMessage, ch *kernel.Choices) *ke
 			var b strings.Builder
 			if f == "zt_tagged.go" {
 				b.WriteString("//go:build verifx\n\n")
+			}
+			switch {
+			case p.Line == "plain" && (i+j)%2 == 0:
+				fmt.Fprintf(&b, "//line grammar_%d_%d.y:1\n", i, j)
+			case p.Line == "cross" && i == 0 && j == 0 && len(p.Pkgs) > 1:
+				last := p.Pkgs[len(p.Pkgs)-1]
+				fmt.Fprintf(&b, "//line %s:1\n", filepath.Join(modRoot, filepath.FromSlash(last.Dir), last.Files[0]))
 			}
 			fmt.Fprintf(&b, "package %s\n\n", ps.Name)
 			if f == "zc_cgo.go" {
@@ -905,6 +934,52 @@ func (c17) Shrink(raw json.RawMessage) []json.RawMessage {
 	var p params
 	json.Unmarshal(raw, &p)
 	var out []json.RawMessage
+	if c := p.Config; c != nil {
+		emit := func(q cfgParams) { out = append(out, kernel.MustJSON(params{Config: &q})) }
+		for _, rs := range kernel.ShrinkList(c.Req) {
+			if len(rs) > 0 {
+				q := *c
+				q.Req = rs
+				emit(q)
+			}
+		}
+		if c.Outer != "w" {
+			q := *c
+			q.Outer = "w"
+			emit(q)
+		}
+		for i := range c.Req {
+			if c.Req[i].Spelling != "abs" {
+				q := *c
+				q.Req = append([]cfgReq(nil), c.Req...)
+				q.Req[i].Spelling = "abs"
+				emit(q)
+			}
+		}
+		for i, pk := range c.Pkgs {
+			if pk.Dir != "plain" && pk.Dir != "" {
+				q := *c
+				q.Pkgs = append([]cfgPkg(nil), c.Pkgs...)
+				q.Pkgs[i].Dir = fmt.Sprintf("plain%d", i)
+				emit(q)
+			}
+			for j, f := range pk.Files {
+				if simple := fmt.Sprintf("f%d.go", j); f != simple {
+					q := *c
+					q.Pkgs = append([]cfgPkg(nil), c.Pkgs...)
+					q.Pkgs[i].Files = append([]string(nil), pk.Files...)
+					q.Pkgs[i].Files[j] = simple
+					emit(q)
+				}
+			}
+		}
+		if c.EnvSet {
+			q := *c
+			q.EnvSet = false
+			emit(q)
+		}
+		return out
+	}
 	for _, as := range kernel.ShrinkList(p.Args) {
 		if len(as) == 0 {
 			continue
@@ -955,6 +1030,11 @@ func (c17) Shrink(raw json.RawMessage) []json.RawMessage {
 	if p.Symlink != "" {
 		q := p
 		q.Symlink = ""
+		out = append(out, kernel.MustJSON(q))
+	}
+	if p.Line != "" {
+		q := p
+		q.Line = ""
 		out = append(out, kernel.MustJSON(q))
 	}
 	if p.Cgo {
